@@ -107,6 +107,80 @@ PRELUDE = r'''
     (do (def back (ev/thread-chan 8)) (thread-drain tc back (+ 2 nabandon)) (for k 0 (+ 2 nabandon) (ev/take back)))
     (for k 0 (+ 2 nabandon) (ev/take tc)))
   (while (not= :stayer (ev/take dn)) nil))
+# ---- bursts of cross-thread completions: several events are in the loop's self pipe when it is read
+# hold the loop's thread (no yield, so nothing is read from the pipe) until n events are queued in it: a logical wait, the clock
+# decides nothing
+(defn hold-until-in-pipe [n] (while (< ((c20/stats) 6) n) (os/sleep 0.0005)))
+(defn thread-give-n [c n] (ev/thread (fn [] (for j 0 n (ev/give c j))) nil :n))
+# k fibers each wait for their own helper thread; the threads all finish while the loop is held
+(defn burst-await [k]
+  (def go (ev/thread-chan k))
+  (def dn (ev/chan k))
+  (var started 0)
+  (for j 0 k (ev/spawn (++ started) (thread-wait-chan go) (ev/give dn j)))
+  (while (< started k) (ev/sleep 0))
+  (for j 0 k (ev/give go j))
+  (hold-until-in-pipe k)
+  (for j 0 k (ev/take dn)))
+# k fire-and-forget threads log their own completion; only the loop's pending-work count keeps the program alive for them
+(defn burst-nowait [k base]
+  (for j 0 k (thread-nowait-log 0 (+ base j)))
+  (hold-until-in-pipe k))
+# k subprocesses exit while the loop is held (each ends when its stdin is closed); k fibers wait for them
+(defn burst-proc [k]
+  (def dn (ev/chan k))
+  (def ps @[])
+  (for j 0 k (ev/spawn (def p (os/spawn ["cat"] :p {:in :pipe})) (array/push ps p) (os/proc-wait p) (os/proc-close p) (ev/give dn j)))
+  (while (< (length ps) k) (ev/sleep 0))
+  (each p ps (ev/close (p :in)))
+  (hold-until-in-pipe k)
+  (for j 0 k (ev/take dn)))
+# k fibers parked on a thread channel are served by one worker thread while the loop is held
+(defn burst-tchan [k]
+  (def tc (ev/thread-chan 0))
+  (def dn (ev/chan k))
+  (var started 0)
+  (for j 0 k (ev/spawn (++ started) (ev/take tc) (ev/give dn j)))
+  (while (< started k) (ev/sleep 0))
+  (thread-give-n tc k)
+  (hold-until-in-pipe k)
+  (for j 0 k (ev/take dn)))
+# ---- signals: one handler per signal shared by all tasks that use it (a handler is looked up when the event is delivered)
+(def sig-chan (ev/chan 64))
+(var sig-users 0)
+(defn signal-roundtrip []
+  (when (= 1 (++ sig-users)) (os/sigaction :usr1 (fn [&] (ev/give sig-chan :usr1))))
+  (c20/raise 10)
+  (assert (= :usr1 (ev/take sig-chan)))
+  (when (= 0 (-- sig-users)) (os/sigaction :usr1 nil)))
+# the raising task finishes at once: only the posted event keeps the loop alive until the handler has run
+(def sig2-ids @[])
+(defn sig2-handler [&]
+  (c20/log (string "done " (array/pop sig2-ids)))
+  (when (empty? sig2-ids) (os/sigaction :usr2 nil)))
+(defn signal-nowait [id]
+  (array/push sig2-ids id)
+  (os/sigaction :usr2 sig2-handler)
+  (c20/raise 12))
+# ---- file watcher: a listener on an inotify stream, pinned while listening
+(defn filewatch-roundtrip [tag]
+  (def d (string "/tmp/c20-fw-" (os/getpid) "-" tag))
+  (os/mkdir d)
+  (def c (ev/chan 16))
+  (def fw (filewatch/new c))
+  (filewatch/add fw d :create)
+  (filewatch/listen fw) (c20/op "watch-listen")
+  (spit (string d "/f") "x")
+  (def e (ev/take c))
+  (assert (= :create (e :type)))
+  (filewatch/unlisten fw) (c20/op "watch-unlisten")
+  (os/rm (string d "/f")) (os/rmdir d))
+(defn to-file-roundtrip []
+  (def [r w] (os/pipe))
+  (def f (ev/to-file w))
+  (file/write f "hey") (file/flush f) (file/close f)
+  (assert (deep= @"hey" (ev/read r 3)))
+  (ev/close w) (ev/close r))
 (defn free-port-listener []
   # listen on an ephemeral loopback port; returns [server port]
   (def s (net/listen "127.0.0.1" "0"))
@@ -451,6 +525,21 @@ CYCLES = {
   (ev/close r) (ev/close w)'''),
 }
 
+CYCLES.update({
+    # ---- bursts: several completions queued in the self pipe when it is read ({A} in 1..40)
+    "burst-thread-awaits": ("thread", "\n  (burst-await (+ 1 (% (+ i {A}) 24)))"),
+    "burst-thread-nowait": ("thread", "\n  (for j 0 (+ 1 (% (+ i {A}) 24)) (ev/thread (fn [] nil) nil :n))\n  (hold-until-in-pipe (+ 1 (% (+ i {A}) 24)))\n  (quiesce)"),
+    "burst-proc-waits": ("proc", "\n  (burst-proc (+ 1 (% (+ i {A}) 20)))"),
+    "burst-tchan-wakeups": ("thread", "\n  (burst-tchan (+ 1 (% (+ i {A}) 40)))\n  (quiesce)"),
+    # ---- signals, file watcher, ev/to-file
+    "signal-roundtrip": ("cheap", "\n  (signal-roundtrip)"),
+    "sigaction-install-replace-remove": ("cheap", "\n  (os/sigaction :usr1 (fn [&] nil))\n  (os/sigaction :usr1 (fn [&] 1))\n  (when (odd? i) (os/sigaction :usr1 nil))\n  (os/sigaction :usr1 nil)"),
+    "filewatch-event": ("cheap", "\n  (filewatch-roundtrip (% i 4))"),
+    "filewatch-listen-unlisten": ("cheap", "\n  (def fw (filewatch/new (ev/chan 4)))\n  (filewatch/add fw \"/tmp\" :create)\n  (filewatch/listen fw)\n  (when (odd? i) (ev/sleep 0))\n  (filewatch/unlisten fw)\n  (filewatch/unlisten fw)"),
+    "to-file": ("cheap", "\n  (to-file-roundtrip)"),
+    "supervisor-mixed": ("thread", "\n  (def sup (ev/chan 4)) (def tsup (ev/thread-chan 4))\n  (ev/go (fn [] (ev/sleep 0) (error \"boom\")) nil sup)\n  (ev/go (fn [] :ok) nil sup)\n  (ev/thread (fn [] (error \"in-thread\")) nil :n tsup)\n  (ev/take sup) (ev/take sup) (ev/take tsup)"),
+})
+
 for _how in ("cancel", "deadline", "select"):
     for _taker in ("local", "thread"):
         CYCLES["tchan-givers-abandon-%s-%s" % (_how, _taker)] = (
@@ -594,6 +683,28 @@ def _task(kind, k, rng):
         # the waiter is cancelled, the process exits a little later: the helper thread is the only thing outstanding
         return ("(def p%d (os/spawn [\"cat\"] :p {:in :pipe}))" % k, "(os/proc-wait p%d)" % k, "cancelled",
                 "(ev/cancel t%d :stop) (ev/spawn (ev/sleep %g) (ev/close (p%d :in)))" % (k, d, k))
+    if kind in ("burst-await", "burst-proc", "burst-tchan"):
+        n = rng.choice([2, 3, 5, 9, 17, 20, 33]) if kind != "burst-proc" else rng.choice([2, 3, 5, 9, 17, 20])
+        return "", "(%s %d)" % (kind, n), "done", ""
+    if kind == "burst-nowait":
+        n = rng.choice([2, 3, 5, 9, 17, 20, 33])
+        base = 100000 + 1000 * k
+        return "", "(burst-nowait %d %d)" % (n, base), "done", "", {base + j: "done" for j in range(n)}
+    if kind == "signal":
+        return "", "(signal-roundtrip)", "done", ""
+    if kind == "signal-nowait":
+        return "", "(signal-nowait %d)" % (2000 + k), "done", "", {2000 + k: "done"}
+    if kind == "filewatch":
+        return "", "(filewatch-roundtrip %d)" % k, "done", ""
+    if kind == "to-file":
+        return "", "(to-file-roundtrip)", "done", ""
+    if kind == "supervisor":
+        return ("(def sup%d (ev/chan 4))" % k,
+                "(ev/go (fn [] (ev/sleep %g) (error \"boom\")) nil sup%d) (ev/go (fn [] (ev/sleep %g) :ok) nil sup%d) "
+                "(def a (ev/take sup%d)) (def b (ev/take sup%d)) (assert (= [:error :ok] (tuple ;(sort @[(a 0) (b 0)]))))" % (d, k, d / 2, k, k, k), "done", "")
+    if kind == "supervisor-thread":
+        return ("(def tsup%d (ev/thread-chan 4))" % k,
+                "(ev/thread (fn [] (os/sleep %g) (error \"in-thread\")) nil :n tsup%d) (assert (= :error ((ev/take tsup%d) 0)))" % (d, k, k), "done", "")
     if kind == "loop1-interrupt":
         # the embedding API janet_loop1_interrupt (an event with a NULL callback), acknowledged at once
         return "", "(c20/loop1-interrupt) (ev/sleep %g)" % d, "done", ""
@@ -627,7 +738,10 @@ MIX_KINDS = ["sleep", "sleep-chain", "thread", "do-thread", "proc", "execute", "
              "read-timeout", "deadline", "stale-deadline", "stale-timeout", "cancel-sleep", "cancel-take", "cancel-tchan-take",
              "cancel-read", "cancel-proc-wait", "close-under-read", "chan-close-under-take", "loop1-interrupt", "thread-nowait", "proc-wait-abandoned", "cancel-thread-await",
              "duplex-close-both", "duplex-peer-close-both", "duplex-cancel-both", "accept-then-close", "proc-wait-kill-close-pipes",
-             "deadline-then-close", "tchan-givers-abandon"]
+             "deadline-then-close", "tchan-givers-abandon",
+             # session 4: bursts of completions read from the self pipe in one go; signals, file watcher, ev/to-file, supervisor events
+             "burst-await", "burst-nowait", "burst-proc", "burst-tchan", "signal", "signal-nowait", "filewatch", "to-file", "supervisor",
+             "supervisor-thread"]
 
 
 def mix_script(rng, ntasks, kinds=None):
